@@ -227,6 +227,7 @@ func C09() int {
 			})
 		}
 	})
+	optionHistory(s, c, items)
 	c.Set("sensitive_string_leaves_in_encrypt_output", len(leaves))
 	c.Set("second_pass_leaves", len(leaves2))
 	leaves = append(leaves, leaves2...)
